@@ -178,11 +178,25 @@ pub fn run_case(_ctx: &Ctx, case: &Value, tag: usize, rep: &mut Report, mb: &mut
                 _ => { let _ = eng::mask_of(&mut m); oplog.push("mask".into()); tie.after(&m, "mask", tag, mb, rep, case); }
             }
         }
+        if std::env::var("LLGV_TRACE").map(|v| v == "2").unwrap_or(false) {
+            if let Some(tp) = m.verif_token_parser() { let st = tp.parser.stats(); eprintln!("step {step} toks={toks:?} all_items={} rows={} ops={:?}", st.all_items, st.rows, oplog.iter().rev().take(4).collect::<Vec<_>>()); }
+        }
         let m1 = eng::mask_of(&mut m);
+        if std::env::var("LLGV_TRACE").map(|v| v == "2").unwrap_or(false) {
+            if let Some(tp) = m.verif_token_parser() { let st = tp.parser.stats(); eprintln!("   after mask: all_items={} rows={} err={:?}", st.all_items, st.rows, m.is_error()); }
+        }
         if m.is_stopped() || m.is_error() {
             tie.enabled = false; // the mask call ended in a stop: compute_bias may not have run
         }
         tie.after(&m, "mask", tag, mb, rep, case);
+        if let Err(e) = &m1 {
+            if e.contains("Too many items") {
+                // a documented resource-limit stop (e.g. endless forced bytes between two adjacent identical
+                // greedy lexemes, reached through compute_ff_bytes): not a statement about caching
+                rep.skip("resource-limit-stop");
+                break;
+            }
+        }
         if m.is_stopped() || m.is_error() {
             // NoExtensionBias etc.: compare with the fresh engine and stop
             let mut f = w.replay(&g, &toks);
